@@ -35,35 +35,96 @@ def check(ctx: Ctx) -> list[RuleResult]:
 
     # ---- R1 ---------------------------------------------------------------------------
     r1 = RuleResult("R1", "discriminator completeness of headers", "every header joins code + verb + device id; the context is appended whenever it is a string", min_instances=6)
-    joins = [n for n in own_nodes(ph.node) if isinstance(n, ast.Call) and isinstance(n.func, ast.Attribute) and n.func.attr == "join" and isinstance(n.func.value, ast.Constant) and n.func.value.value == "|"]
-    if len(joins) < 5:
-        raise AnalysisError(f"pkt_header builds {len(joins)} headers with '|'.join (expected >= 5)")
-    dev_defs = {norm(t): n.value for n in own_nodes(ph.node) if isinstance(n, ast.Assign) for t in n.targets}
-    for j in joins:
+    # the text each header expression builds (f-string, '|'.join, +, .format alike; locals copy-propagated), in pkt_header and in
+    # whatever same-module helper part of it has been extracted into
+    from .common import expand as _expand, module_scope, pool, str_template
+
+    ph_scope = [g for g in module_scope(ctx, ph) if g is ph or any(cs.caller is ph and g in cs.callees for cs in ctx.cg.calls_in(ph) if cs.kind == "call")]
+
+    def _fields(tpl: list) -> "list[list[tuple[str, str]]]":
+        flds: list[list[tuple[str, str]]] = [[]]
+        for k, v in tpl:
+            if k == "lit":
+                segs = v.split("|")
+                for i, sg in enumerate(segs):
+                    if i:
+                        flds.append([])
+                    if sg:
+                        flds[-1].append(("lit", sg))
+            else:
+                flds[-1].append((k, v))
+        return flds
+
+    builds = []  # (function, node, fields)
+    for g, n in pool(ph_scope):
+        if isinstance(n, (ast.JoinedStr, ast.BinOp, ast.Call)) and not isinstance(getattr(n, "parent", None), (ast.JoinedStr, ast.FormattedValue, ast.BinOp)):
+            if isinstance(n, ast.Call) and not (isinstance(n.func, ast.Attribute) and n.func.attr in ("join", "format")):
+                continue
+            if isinstance(n, ast.BinOp) and not isinstance(n.op, ast.Add):
+                continue
+            par = getattr(n, "parent", None)
+            if isinstance(par, (ast.Raise, ast.Call)) and not (isinstance(par, ast.Call) and norm(par.func) == "str"):
+                continue  # messages
+            tpl = str_template(g.node, n)
+            if any(k == "lit" and "|" in v for k, v in tpl):
+                builds.append((g, n, _fields(tpl)))
+    heads = [(g, n, f) for g, n, f in builds if f and f[0] == [("var", "pkt.code")]]  # a header starts with the code
+    if len(heads) < 5:
+        raise AnalysisError(f"pkt_header builds {len(heads)} three-field headers (expected >= 5)")
+
+    def _is_verb(v: str) -> bool:
+        try:
+            e = ast.parse(v, mode="eval").body
+        except SyntaxError:
+            return False
+        return v == "pkt.verb" or v in VERB_NAMES or (isinstance(e, ast.IfExp) and all(norm(x) in VERB_NAMES for x in (e.body, e.orelse)))
+
+    def _is_dev_id(v: str) -> bool:
+        try:
+            e = ast.parse(v, mode="eval").body
+        except SyntaxError:
+            return False
+        leaves = [e.body, e.orelse] if isinstance(e, ast.IfExp) else [e]
+        return all(norm(x) in ("pkt.src.id", "pkt.dst.id", "ALL_DEV_ADDR.id") for x in leaves)
+
+    for g, j, flds in heads:
         r1.instances += 1
         r1.nontrivial += 1
-        elts = j.args[0].elts if j.args and isinstance(j.args[0], (ast.Tuple, ast.List)) else []
-        txt = [norm(e) for e in elts]
-        has_code = "pkt.code" in txt
-        has_verb = any(t == "pkt.verb" or t in VERB_NAMES or (isinstance(e, ast.IfExp) and all(norm(x) in VERB_NAMES for x in (e.body, e.orelse))) for t, e in zip(txt, elts))
-        ids = []
-        for t in txt:
-            if t in ("pkt.src.id", "pkt.dst.id", "ALL_DEV_ADDR.id"):
-                ids.append(t)
-            elif t in dev_defs and all(x in norm(dev_defs[t]) for x in (".id",)):
-                ids.append(f"{t}={norm(dev_defs[t])[:50]}")
-        if has_code and has_verb and ids and len(elts) == 3:
-            r1.ok({"header": txt})
+        one = [f[0][1] if len(f) == 1 and f[0][0] == "var" else None for f in flds]
+        if len(one) != 3:
+            r1.fail(f"pkt_header:join({', '.join(str(x) for x in one)[:60]})", g.loc(j), f"a header is built from {len(one)} fields instead of code|verb|device id: packets differing in the missing one would share a header", [norm(j)])
+            continue
+        has_code = one[0] == "pkt.code"
+        has_verb = one[1] is not None and _is_verb(one[1])
+        has_id = one[2] is not None and _is_dev_id(one[2])
+        # a device id chosen by an if/else statement rather than a conditional expression: every definition must be an id
+        if not has_id and one[2] is not None and one[2].isidentifier():
+            defs = [d.value for d in own_nodes(g.node) if isinstance(d, ast.Assign) and any(norm(t) == one[2] for t in d.targets)]
+            has_id = bool(defs) and all(_is_dev_id(norm(d)) for d in defs)
+        if has_code and has_verb and has_id:
+            r1.ok({"header": [str(x) for x in one]})
         else:
-            missing = [w for w, ok in (("code", has_code), ("verb", has_verb), ("device id", bool(ids))) if not ok]
-            r1.fail(f"pkt_header:join({', '.join(txt)[:60]})", ph.loc(j), f"a header is built without {', '.join(missing) or 'the three discriminators only'}: packets differing in it would share a header", [norm(j)])
-    # context appended
+            missing = [w for w, ok in (("code", has_code), ("verb", has_verb), ("device id", has_id)) if not ok]
+            r1.fail(f"pkt_header:join({', '.join(str(x) for x in one)[:60]})", g.loc(j), f"a header is built without {', '.join(missing) or 'the three discriminators only'}: packets differing in it would share a header", [norm(j)])
+    # context appended: some construction is `<header>|<pkt._ctx>`, chosen exactly when the context is a string
     r1.instances += 1
     r1.nontrivial += 1
-    rets = [n for n in own_nodes(ph.node) if isinstance(n, ast.Return) and n.value is not None and "pkt._ctx" in norm(n.value)]
-    ok_ctx = any(isinstance(r.value, ast.IfExp) and norm(r.value.test) == "isinstance(pkt._ctx, str)" and "{header}|{pkt._ctx}" in norm(r.value.body) and norm(r.value.orelse) == "header" for r in rets)
+    ok_ctx = False
+    for g, n, flds in builds:
+        if len(flds) in (2, 4) and flds[-1] == [("var", "pkt._ctx")]:
+            # the guard: a conditional expression or an enclosing if on isinstance(pkt._ctx, str)
+            par = getattr(n, "parent", None)
+            if isinstance(par, ast.IfExp) and par.body is n and norm(par.test) == "isinstance(pkt._ctx, str)" and isinstance(getattr(par, "parent", None), ast.Return):
+                ok_ctx = True
+            st = n
+            while not isinstance(st, ast.stmt):
+                st = st.parent  # type: ignore[attr-defined]
+            from .common import known_at
+
+            if known_at(st, "isinstance(pkt._ctx, str)", g.node):
+                ok_ctx = True
     if ok_ctx:
-        r1.ok({"context": "f'{header}|{pkt._ctx}' if isinstance(pkt._ctx, str) else header"})
+        r1.ok({"context": "<header>|<pkt._ctx> whenever isinstance(pkt._ctx, str)"})
     else:
         r1.fail("pkt_header:context", ph.loc(), "the header no longer appends pkt._ctx whenever it is a string: packets for different zones/indexes/fragments would share a header")
     # Frame._ctx: payload-dependent for the complex codes; otherwise _idx
@@ -81,15 +142,15 @@ def check(ctx: Ctx) -> list[RuleResult]:
     n_slices = 0
     for n in own_nodes(pi.node):
         if isinstance(n, ast.Return) and n.value is not None:
-            for s in ast.walk(n.value):
-                if isinstance(s, ast.Subscript) and isinstance(s.slice, ast.Slice):
+            for s_ in ast.walk(_expand(pi.node, n.value)):
+                if isinstance(s_, ast.Subscript) and isinstance(s_.slice, ast.Slice):
                     n_slices += 1
                     r1.instances += 1
                     r1.nontrivial += 1
-                    if norm(s.value) == "pkt.payload":
-                        r1.ok({"_pkt_idx returns": norm(s)})
+                    if norm(s_.value) == "pkt.payload":
+                        r1.ok({"_pkt_idx returns": norm(s_)})
                     else:
-                        r1.fail(f"_pkt_idx:{norm(s)}", pi.loc(n), "an index is taken from something other than the payload")
+                        r1.fail(f"_pkt_idx:{norm(s_)}", pi.loc(n), "an index is taken from something other than the payload")
     if n_slices < 6:
         raise AnalysisError("_pkt_idx: payload slices not found")
     out.append(r1)
@@ -98,8 +159,8 @@ def check(ctx: Ctx) -> list[RuleResult]:
     r2 = RuleResult("R2", "one verb map", "RQ->RP and W->I in pkt_header(rx_header=True) agree with dispatcher._check_dst_slug; I/RP have no reply header", min_instances=2)
     consts = {k: ctx.consts.need("ramses_tx.const", k) for k in VERB_NAMES}
     rx_map = None
-    for n in own_nodes(ph.node):
-        if isinstance(n, ast.IfExp) and isinstance(n.test, ast.Compare) and norm(n.test.left) == "pkt.verb" and norm(n.body) in VERB_NAMES and norm(n.orelse) in VERB_NAMES:
+    for g_, n in pool(ph_scope):
+        if isinstance(n, ast.IfExp) and isinstance(n.test, ast.Compare) and len(n.test.ops) == 1 and isinstance(n.test.ops[0], ast.Eq) and norm(_expand(g_.node, n.test.left)) == "pkt.verb" and norm(n.body) in VERB_NAMES and norm(n.orelse) in VERB_NAMES and norm(n.test.comparators[0]) in VERB_NAMES:
             k = consts[norm(n.test.comparators[0])]
             rx_map = {k: consts[norm(n.body)], "else": consts[norm(n.orelse)]}
     r2.instances += 1
@@ -120,14 +181,36 @@ def check(ctx: Ctx) -> list[RuleResult]:
         r2.fail("verb-map", ph.loc(), f"the reply verb maps disagree: pkt_header {rx_map} vs dispatcher {dmap}")
     r2.instances += 1
     r2.nontrivial += 1
-    noreply = [n for n in own_nodes(ph.node) if isinstance(n, ast.If) and norm(n.test) == "pkt.verb in (I_, RP) or pkt.src == pkt.dst" and isinstance(n.body[0], ast.Return) and norm(n.body[0].value) == "None"]
-    if noreply:
-        r2.ok({"no reply header for": "I, RP, src == dst"})
+    # every reply header built outside the 1FC9 special cases is built only when the verb is known not to be I/RP and src != dst
+    # (else a reply would be awaited that never comes): facts at the construction, however the guard is spelled
+    from .common import edge_implies, facts_at, short_circuit_facts
+
+    goals = [ast.parse(g_src, mode="eval").body for g_src in ("not (pkt.verb in (I_, RP)) and not (pkt.src == pkt.dst)", "not (pkt.verb == I_) and not (pkt.verb == RP) and not (pkt.src == pkt.dst)", "(pkt.verb == RQ or pkt.verb == W_) and not (pkt.src == pkt.dst)", "pkt.verb in (RQ, W_) and not (pkt.src == pkt.dst)")]
+    reply_heads = [(g_, n, f) for g_, n, f in heads if len(f) > 1 and len(f[1]) == 1 and "RP if" in f[1][0][1]]
+    if not reply_heads:
+        raise AnalysisError("pkt_header: the reply-header construction was not found")
+    bad_nr = []
+    for g_, n, _f in reply_heads:
+        st = n
+        while not isinstance(st, ast.stmt):
+            st = st.parent  # type: ignore[attr-defined]
+        facts = [(_expand(g_.node, t), v) for t, v in short_circuit_facts(n) + facts_at(st)]
+        # conjunction of the facts: each goal conjunct may come from a different fact
+        def _known(goal: ast.expr) -> bool:
+            conj = goal.values if isinstance(goal, ast.BoolOp) and isinstance(goal.op, ast.And) else [goal]
+            return all(any(edge_implies(t, v, c) for t, v in facts) for c in conj)  # type: ignore[arg-type]
+        if not any(_known(gl) for gl in goals):
+            bad_nr.append(n)
+    if not bad_nr:
+        r2.ok({"no reply header for": "I, RP, src == dst", "reply_header_constructions": len(reply_heads)})
     else:
-        r2.fail("pkt_header:no-reply-branch", ph.loc(), "pkt_header(rx_header=True) no longer returns None for I/RP (a reply would be awaited that never comes)")
+        r2.fail("pkt_header:no-reply-branch", ph.loc(bad_nr[0]), "pkt_header(rx_header=True) builds a reply header although the verb may be I/RP or src == dst (a reply would be awaited that never comes)")
     out.append(r2)
 
     # ---- R3 ---------------------------------------------------------------------------
+    from ..predeval import PredEval, Unsupported
+
+    NULL0418 = "000000B0000000000000000000007FFFFF7000000000"
     r3 = RuleResult("R3", "matching is whole-header equality", "every FSM transition on a received packet is guarded by ==/!= between headers", min_instances=4)
     n_trans = 0
     for cls in ("WantEcho", "WantRply"):
@@ -143,43 +226,42 @@ def check(ctx: Ctx) -> list[RuleResult]:
             if bad:
                 r3.instances += 1
                 r3.fail(f"{f.short}:partial-match:{bad[:50]}", f.loc(n), f"a header is matched partially (`{bad[:70]}`): near-miss packets could be taken for the echo/reply")
-        for n in own_nodes(f.node):
-            if isinstance(n, ast.Call) and isinstance(n.func, ast.Attribute) and n.func.attr == "set_state":
-                n_trans += 1
-                r3.instances += 1
-                r3.nontrivial += 1
-                node = None
-                p = n
-                while p is not None and not cfg.nodes_of(p):
-                    p = getattr(p, "parent", None)
-                node = cfg.nodes_of(p)[0]
-                want = "rx_header" if (cls == "WantRply" or any(k.arg == "result" for k in n.keywords) and "_rply_pkt" in " ".join(norm(x) for x in _prev_siblings(n))) else "tx_header"
-                guards = []
-                for t in cfg.nodes:
-                    if t.kind != "test":
-                        continue
-                    # only comparisons whose truth follows from the edge taken: conjuncts on the true edge (`a and x == y`),
-                    # disjuncts on the false edge (`x != y or b`); a comparison under the other connective implies nothing
-                    for lab in ("true", "false"):
-                        for c, holds in _implied(t.ast, lab == "true"):
-                            if isinstance(c, ast.Compare) and len(c.ops) == 1 and isinstance(c.ops[0], (ast.Eq, ast.NotEq)):
-                                equal = holds if isinstance(c.ops[0], ast.Eq) else not holds
-                                l, r = norm(c.left), norm(c.comparators[0])
-                                if equal and ("hdr" in l.lower() and ("tx_header" in r or "rx_header" in r)) and not any(isinstance(x, ast.Subscript) for x in (c.left, c.comparators[0])):
-                                    if cfg.edge_dominates(t, lab, node):
-                                        guards.append(f"{l} == {r} (on the {lab} edge of `{norm(t.ast)[:40]}...`)")
-                if guards:
-                    r3.ok({"transition": f"{cls}: {norm(n)[:50]}", "guards": guards[:3]})
-                else:
-                    # the enumerated exception: 0418 null-entry
-                    exc_guard = [t for t in cfg.nodes if t.kind == "test" and "000000B0000000000000000000007FFFFF7000000000" in norm(t.ast) and "0418|RP|" in norm(t.ast)]
-                    if cls == "WantRply" and exc_guard:
-                        # reached via the if/elif/else: either the 0418 branch, or `elif hdr != rx_header: return`
-                        elif_ok = any(t.kind == "test" and norm(t.ast) == "pkt._hdr != self._sent_cmd.rx_header" for t in cfg.nodes)
-                        if elif_ok:
-                            r3.ok({"transition": f"{cls}: {norm(n)[:50]}", "guards": ["pkt._hdr == rx_header, or the enumerated 0418 null-entry exception (literal null payload)"]})
-                            continue
-                    r3.fail(f"{f.short}:{norm(n)[:50]}:unguarded", f.loc(n), "an FSM transition on a received packet is not dominated by a whole-header ==/!= test against the sent command")
+        # every row of the function's decision table (predeval: the function is a decision list over header comparisons) that makes
+        # a transition has some whole-header equality true: pkt header == the command's tx/rx header - or is the enumerated 0418
+        # null-entry row (headers equal up to the idx and the literal null payload), which R5 pins down exactly
+        try:
+            tab3 = PredEval(ctx, f, domains={"self._sent_cmd.rx_header[:8]": ["0418|RP|"], "pkt.payload": [NULL0418]}).table()
+        except Unsupported as err:
+            raise AnalysisError(f"{cls}.pkt_rcvd is not a decision procedure the evaluator understands: {err}") from err
+
+        def _whole_header_eq(atom: str) -> bool:
+            try:
+                e = ast.parse(atom.split(" {")[0], mode="eval").body
+            except SyntaxError:
+                return False
+            if not (isinstance(e, ast.Compare) and len(e.ops) == 1 and isinstance(e.ops[0], ast.Eq)):
+                return False
+            l, r = e.left, e.comparators[0]
+            if any(isinstance(x, ast.Subscript) for x in (l, r)):
+                return False
+            txt = (norm(l), norm(r))
+            return any("hdr" in t.lower() for t in txt) and any("tx_header" in t or "rx_header" in t for t in txt)
+
+        eq_atoms = [a for a in tab3.atoms if _whole_header_eq(a)]
+        sites = [n for n in own_nodes(f.node) if isinstance(n, ast.Call) and isinstance(n.func, ast.Attribute) and n.func.attr == "set_state"]
+        n_trans += len(sites)
+        for n in sites:
+            r3.instances += 1
+            r3.nontrivial += 1
+            eff = norm(n)
+            rows_t = [a for a, _r in tab3.rows if eff in a["__effects__"]]
+            bad_rows = [a for a in rows_t if not any(a.get(k) for k in eq_atoms) and not (cls == "WantRply" and a.get("self._sent_cmd.rx_header[:8]") == "0418|RP|" and a.get("pkt.payload") == NULL0418)]
+            if not rows_t:
+                raise AnalysisError(f"{cls}.pkt_rcvd: the transition `{eff[:50]}` appears in no row of the decision table")
+            if bad_rows:
+                r3.fail(f"{f.short}:{eff[:50]}:unguarded", f.loc(n), "an FSM transition on a received packet can be made although no whole-header equality with the sent command holds: " + tab3.describe({k: v for k, v in bad_rows[0].items() if k != "__effects__"})[:300])
+            else:
+                r3.ok({"transition": f"{cls}: {eff[:50]}", "rows": len(rows_t), "equalities": eq_atoms[:3]})
     if n_trans < 4:
         raise AnalysisError("FSM transitions in pkt_rcvd not found")
     # placeholder substitution on both sides
